@@ -5,6 +5,7 @@ import z3
 from .values import (Choice, SymList, Obj, Unsupported, is_z3, is_bv, is_zint, is_zreal, is_zbool, is_fp,
                      is_pyint, zand, zor, znot, zbool, tobool_const)
 from .ctx import PyRaise, NoFork
+from . import ranges
 
 
 class Ops:
@@ -196,6 +197,29 @@ class Ops:
             return self.zint_binop(op, a, b, where)
         W = self.W
         tag = "%s" % (where,)
+        if op in ("+", "-", "*"):
+            # interval pre-analysis: when the mathematical result provably fits, the no-wrap obligation holds
+            ra, rb = ranges.rng(a), ranges.rng(b)
+            if ra is not None and rb is not None:
+                if op == "+":
+                    lo, hi = ra[0] + rb[0], ra[1] + rb[1]
+                elif op == "-":
+                    lo, hi = ra[0] - rb[1], ra[1] - rb[0]
+                else:
+                    ps = (ra[0] * rb[0], ra[0] * rb[1], ra[1] * rb[0], ra[1] * rb[1])
+                    lo, hi = min(ps), max(ps)
+                if -(1 << (W - 1)) <= lo and hi <= (1 << (W - 1)) - 1:
+                    ctx.range_discharged = getattr(ctx, "range_discharged", 0) + 1
+                    if op == "*":
+                        # multiplier-free encodings (the product provably does not wrap)
+                        for x, y, rx in ((a, b, ra), (b, a, rb)):
+                            if rx[0] >= -1 and rx[1] <= 1:
+                                one, mone = self.int_const(1), self.int_const(-1)
+                                return z3.If(x == one, y, z3.If(x == mone, -y, self.int_const(0)))
+                            if rx[0] == rx[1] and rx[0] > 0 and (rx[0] & (rx[0] - 1)) == 0:
+                                return y << self.int_const(rx[0].bit_length() - 1)
+                        return z3.simplify(a * b, push_ite_bv=True) if self._small_ite(a) and self._small_ite(b) else a * b
+                    return a + b if op == "+" else a - b
         if op == "+":
             ctx.oblige("safety:no-wrap:add@" + tag, zand(z3.BVAddNoOverflow(a, b, True), z3.BVAddNoUnderflow(a, b)), where, "safety")
             return a + b
@@ -224,6 +248,9 @@ class Ops:
             ctx.guard_error(b == zero, "ZeroDivisionError", where)
             ctx.oblige("safety:positive-divisor@" + tag, b > zero, where, "safety")
             # floor semantics for a positive divisor
+            ra = ranges.rng(a)
+            if ra is not None and ra[0] >= 0:
+                return z3.SRem(a, b) if op == "%" else a / b      # non-negative dividend: truncation = floor
             r = z3.SRem(a, b)
             neg = r < zero
             if op == "%":
@@ -233,9 +260,13 @@ class Ops:
         if op == "<<":
             zero = self.int_const(0)
             ctx.guard_error(b < zero, "ValueError", where)      # negative shift count
-            ctx.oblige("safety:shift-count-in-model@" + tag, b < self.int_const(W), where, "safety")
+            rb = ranges.rng(b)
+            if not (rb is not None and rb[1] < W):
+                ctx.oblige("safety:shift-count-in-model@" + tag, b < self.int_const(W), where, "safety")
             res = a << b
-            ctx.oblige("safety:no-wrap:shl@" + tag, (res >> b) == a, where, "safety")
+            rr = ranges.rng(res)
+            if rr is None:
+                ctx.oblige("safety:no-wrap:shl@" + tag, (res >> b) == a, where, "safety")
             return res
         if op == ">>":
             zero = self.int_const(0)
